@@ -52,6 +52,10 @@ fn lcm(expr1: i64, expr2: i64) -> i64 {
     (expr1 / gcd(expr1, expr2) * expr2).abs()
 }
 
+fn overflow() -> Box<dyn error::Error> {
+    "Integer overflow".into()
+}
+
 pub fn eval(expr: Node) -> Result<i64, Box<dyn error::Error>> {
     #[cfg(feature = "verif_hooks")]
     crate::verif_hooks::tick();
@@ -60,18 +64,59 @@ pub fn eval(expr: Node) -> Result<i64, Box<dyn error::Error>> {
         Number(i) => Ok(i),
         And(expr1, expr2) => Ok(eval(*expr1)? & eval(*expr2)?),
         Or(expr1, expr2) => Ok(eval(*expr1)? | eval(*expr2)?),
-        LeftShift(expr1, expr2) => Ok(eval(*expr1)? << eval(*expr2)?),
-        RightShift(expr1, expr2) => Ok(eval(*expr1)? >> eval(*expr2)?),
-        Add(expr1, expr2) => Ok(eval(*expr1)? + eval(*expr2)?),
-        Subtract(expr1, expr2) => Ok(eval(*expr1)? - eval(*expr2)?),
-        Multiply(expr1, expr2) => Ok(eval(*expr1)? * eval(*expr2)?),
-        Divide(expr1, expr2) => Ok(eval(*expr1)? / eval(*expr2)?),
-        Modulo(expr1, expr2) => Ok(eval(*expr1)? % eval(*expr2)?),
-        Negative(expr1) => Ok(-(eval(*expr1)?)),
-        Pow(expr1, expr2) => Ok(eval(*expr1)?.pow(eval(*expr2)? as u32)),
+        LeftShift(expr1, expr2) => {
+            let value = eval(*expr1)?;
+            let count = eval(*expr2)?;
+            u32::try_from(count)
+                .ok()
+                .and_then(|count| value.checked_shl(count))
+                .ok_or_else(|| "Shift count out of range".into())
+        }
+        RightShift(expr1, expr2) => {
+            let value = eval(*expr1)?;
+            let count = eval(*expr2)?;
+            u32::try_from(count)
+                .ok()
+                .and_then(|count| value.checked_shr(count))
+                .ok_or_else(|| "Shift count out of range".into())
+        }
+        Add(expr1, expr2) => eval(*expr1)?
+            .checked_add(eval(*expr2)?)
+            .ok_or_else(overflow),
+        Subtract(expr1, expr2) => eval(*expr1)?
+            .checked_sub(eval(*expr2)?)
+            .ok_or_else(overflow),
+        Multiply(expr1, expr2) => eval(*expr1)?
+            .checked_mul(eval(*expr2)?)
+            .ok_or_else(overflow),
+        Divide(expr1, expr2) => {
+            let dividend = eval(*expr1)?;
+            let divisor = eval(*expr2)?;
+            if divisor == 0 {
+                return Err("Division by zero".into());
+            }
+            dividend.checked_div(divisor).ok_or_else(overflow)
+        }
+        Modulo(expr1, expr2) => {
+            let dividend = eval(*expr1)?;
+            let divisor = eval(*expr2)?;
+            if divisor == 0 {
+                return Err("Division by zero".into());
+            }
+            dividend.checked_rem(divisor).ok_or_else(overflow)
+        }
+        Negative(expr1) => eval(*expr1)?.checked_neg().ok_or_else(overflow),
+        Pow(expr1, expr2) => {
+            let base = eval(*expr1)?;
+            let exponent = u32::try_from(eval(*expr2)?)
+                .map_err(|_| "The exponent must be between 0 and 4294967295")?;
+            base.checked_pow(exponent).ok_or_else(overflow)
+        }
         Factorial(sub_expr) => {
             let sub_result = eval(*sub_expr)?;
-            if sub_result >= 0 {
+            if sub_result > 20 {
+                Err(overflow())
+            } else if sub_result >= 0 {
                 let mut factorial_result = 1;
                 for i in 2..=(sub_result as usize) {
                     #[cfg(feature = "verif_hooks")]
@@ -83,7 +128,7 @@ pub fn eval(expr: Node) -> Result<i64, Box<dyn error::Error>> {
                 Ok(0)
             }
         }
-        Abs(sub_expr) => Ok(eval(*sub_expr)?.abs()),
+        Abs(sub_expr) => eval(*sub_expr)?.checked_abs().ok_or_else(overflow),
         Sqrt(sub_expr) => {
             let before_sqr = eval(*sub_expr)? as f64;
             Ok(before_sqr.sqrt() as i64)
@@ -107,6 +152,8 @@ pub fn eval(expr: Node) -> Result<i64, Box<dyn error::Error>> {
             let result = eval(*sub_expr)?;
             if result < 0 {
                 Ok(0)
+            } else if result > 62 {
+                Err(overflow())
             } else {
                 Ok(1 << result)
             }
